@@ -86,9 +86,9 @@ Proof.
   unfold inside. cbn [aL aR aJ]. replace (aJ s + 1 - aJ s) with 1 by lia. cbn. lia.
 Qed.
 
-Lemma astep_inside s d : rgood s -> dec_ok d -> inside s (astep s d).
+Lemma astep_inside_norm s d : rgood s -> dec_ok d -> inside (anorm s) (astep s d).
 Proof.
-  intros H Hd. eapply inside_trans; [apply anorm_inside|].
+  intros H Hd.
   pose proof (anorm_range s H) as A. unfold astep. set (t := anorm s) in *.
   unfold inside, TOPV, R32 in *.
   destruct d as [p [|]|[|]]; cbn [aL aR aJ]; rewrite N.sub_diag; cbn [N.pow]; cbn in Hd; unfold prob_ok in *.
@@ -101,6 +101,14 @@ Proof.
   - pose proof (N.div_mod (aR t) 2 ltac:(lia)). lia.
   - pose proof (N.div_mod (aR t) 2 ltac:(lia)). lia.
 Qed.
+
+Lemma astep_inside s d : rgood s -> dec_ok d -> inside s (astep s d).
+Proof.
+  intros H Hd. eapply inside_trans; [apply anorm_inside|apply astep_inside_norm; assumption].
+Qed.
+
+Lemma astep_aJ s d : aJ (astep s d) = aJ (anorm s).
+Proof. unfold astep. destruct d as [p [|]|[|]]; reflexivity. Qed.
 
 Lemma arun_good ds : forall s, rgood s -> Forall dec_ok ds -> rgood (arun s ds) /\ inside s (arun s ds).
 Proof.
